@@ -40,3 +40,5 @@ def run(idx, rep, tier):
     misc2.r_anglesort(idx, rep)
     generic2.r_convexweights(idx, rep, [m.name for m in idx.lib_modules()], floor=1)      # the contact point of coinciding tetrahedra is their potential-weighted centre: inside the tetrahedron only for weights that sum to one
     unpack.r_unpack(idx, rep, floor=6)
+    generic2.r_axisuniform(idx, rep, [m.name for m in idx.lib_modules()], floor=0)      # hand-unrolled per-axis box tests treat the axes alike
+    generic2.r_distinct(idx, rep, [m.name for m in idx.lib_modules()], floor=0)      # duplicate removal of polygon vertices
